@@ -44,8 +44,11 @@ pub(super) fn start_background_workers(fsync_schedule: FsyncSchedule) -> Arc<mps
         let del_rx = del_rx;
         let mut delete_pending = HashSet::new();
 
+        #[cfg(not(walrus_verif))]
         #[cfg(target_os = "linux")]
         let mut ring = io_uring::IoUring::new(2048).expect("Failed to create io_uring");
+        #[cfg(all(target_os = "linux", walrus_verif))]
+        let mut ring = crate::wal::verif::bg_ring_new(2048);
 
         loop {
             #[cfg(walrus_verif)]
